@@ -619,15 +619,42 @@ pub fn check_lattice(case: &LatticeCase, obs: &mut Obs) {
         return;
     }
     obs.nontrivial();
+    let mut splits: Vec<(St, Pe2)> = vec![];
     for th in [0.0, 0.5, 1.0] {
         let p = 1.02 * pd + th * (0.98 * pb - 1.02 * pd);
         match feed_state(&b, p, 0) {
             Ok(s) => {
                 expect_unstable(obs, "inside", &s, &d, true);
                 expect_split(obs, "inside", &s);
+                if let Ok(pe) = s.tp_flash(None, SolverOptions::default(), None) {
+                    splits.push((s, pe));
+                }
             }
             Err(e) => obs.discard(format!("feed state: {}", err_name(&e))),
         }
+    }
+    // The phase split of an unstable feed does not depend on the initial state handed to the flash: with the
+    // solution from the other end of the envelope as initial state (far from the solution) the flash still
+    // returns a phase split, because an attempt that does not end in a solution falls back to the start from
+    // the stability analysis - the same path the call without initial state takes.
+    if splits.len() >= 2 {
+        let (first, last) = (&splits[0], &splits[splits.len() - 1]);
+        for (tag, feed, init) in [("inside, initial state from the dew side", &last.0, &first.1), ("inside, initial state from the bubble side", &first.0, &last.1)] {
+            obs.count();
+            match feed.tp_flash(Some(init), SolverOptions::default(), None) {
+                Ok(pe) => {
+                    obs.ensure(!PhaseEquilibrium::is_trivial_solution(pe.vapor(), pe.liquid()), || format!("{tag}: flash returned one phase twice"));
+                }
+                Err(e) => obs.fail(format!(
+                    "{tag}: tp_flash of an unstable feed that the flash without initial state splits returned {} (T = {}, p = {:e}, x = {:?})",
+                    err_name(&e),
+                    feed.temperature,
+                    pressure_red(feed),
+                    feed.molefracs.to_vec()
+                )),
+            }
+        }
+        obs.class("inside: flash with an initial state from the other end of the envelope");
     }
 }
 
